@@ -4,10 +4,11 @@ GG_GOROOT=""
 if [ -d /root/go/pkg/mod/golang.org/toolchain@v0.0.1-go1.25.0.linux-amd64 ]; then
   GG_GOROOT=/root/go/pkg/mod/golang.org/toolchain@v0.0.1-go1.25.0.linux-amd64
 else
-  GG_GOROOT=$(cd /repo && env -u GOSUMDB -u GOFLAGS GOTOOLCHAIN=auto go env GOROOT 2>/dev/null)
+  GG_GOROOT=$(cd "${VERIF_REPO:-/repo}" && env -u GOSUMDB -u GOFLAGS GOTOOLCHAIN=auto go env GOROOT 2>/dev/null)
 fi
 export GG_GOROOT
 export PATH="$GG_GOROOT/bin:$PATH"
 export GOTOOLCHAIN=local GOFLAGS=-mod=mod GOPROXY=off GOSUMDB=off GONOSUMDB='*' GONOSUMCHECK=1 GOWORK=off
+export VERIF_REPO="${VERIF_REPO:-${VP_RUN_REPO:-/repo}}"
 export VERIF_ROOT="${VERIF_ROOT:-/verif}"
 export VERIF_BUILD="$VERIF_ROOT/.build"
